@@ -69,9 +69,43 @@ pub struct SearchOut {
     pub list_nodes: Vec<usize>,
     pub list_edges: Vec<(usize, usize, u32)>,
     pub trace: Vec<(usize, usize, u32)>,
+    /// builder reuse: one entry per stage of a `mode1+mode2+...` request (stage mode, target in force, its result)
+    pub stages: Vec<(String, Option<usize>, SearchOut)>,
+}
+impl SearchOut {
+    pub fn empty() -> SearchOut {
+        SearchOut { node: None, path: None, path_nodes: vec![], path_len: 0, first_node: None, last_node: None, first_edge: None, last_edge: None, views: String::new(), list_nodes: vec![], list_edges: vec![], trace: vec![], stages: vec![] }
+    }
+}
+/// `path`, `path:5` (retarget to 5 first) -> (mode, new target)
+pub fn parse_stage(m: &str) -> (String, Option<usize>) {
+    match m.split_once(':') {
+        Some((a, k)) => (a.to_string(), k.parse().ok()),
+        None => (m.to_string(), None),
+    }
+}
+
+/// a single-stage request is its only stage (so every existing reader of `SearchOut` keeps working);
+/// a multi-stage request keeps the stages and the whole trace
+pub fn finish_stages(mut out: SearchOut, trace: Vec<(usize, usize, u32)>) -> SearchOut {
+    if out.stages.len() == 1 {
+        let (_, _, mut so) = out.stages.pop().unwrap();
+        so.trace = trace;
+        return so;
+    }
+    out.trace = trace;
+    out
 }
 
 pub fn show_search(spec: &SearchSpec, o: &SearchOut) -> String {
+    if spec.mode.contains('+') {
+        return o.stages.iter().map(|(m, tg, so)| {
+            let mut sp = spec.clone();
+            sp.mode = m.clone();
+            sp.target = *tg;
+            show_search(&sp, so)
+        }).collect::<Vec<_>>().join(" ## ");
+    }
     let mut s = match spec.mode.as_str() {
         "node" => format!("node={:?}", o.node),
         "path" | "cycle" => match &o.path {
@@ -158,37 +192,75 @@ macro_rules! fill_path {
 }
 
 macro_rules! run_search_modes {
-    ($spec:expr, $out:expr) => {
+    ($spec:expr, $out:expr, $trace:expr) => {
         macro_rules! run {
             ($bb:ident) => {{
-                match $spec.mode.as_str() {
+                // every stage runs on the SAME builder object (a single stage is the ordinary request).
+                // `search` and `search_cycle` of bfs/dfs borrow the builder for its whole lifetime (`&'a mut self`),
+                // so only the last stage may be `node` or `cycle`; all earlier stages are `path`.
+                let stages: Vec<(String, Option<usize>)> = $spec.mode.split('+').map(parse_stage).collect();
+                let mut cur_target = $spec.target;
+                for (m, retarget) in &stages[..stages.len() - 1] {
+                    if let Some(k) = retarget {
+                        $bb = $bb.target(k);
+                        cur_target = Some(*k);
+                    }
+                    let t0 = $trace.borrow().len();
+                    let mut so = SearchOut::empty();
+                    if m == "path" {
+                        if let Some(p) = $bb.search_path() {
+                            fill_path!(so, p);
+                        }
+                    }
+                    so.trace = $trace.borrow()[t0..].to_vec();
+                    $out.stages.push((m.clone(), cur_target, so));
+                }
+                let (m, retarget) = stages.last().unwrap();
+                let m = m.clone();
+                if let Some(k) = retarget {
+                    $bb = $bb.target(k);
+                    cur_target = Some(*k);
+                }
+                let t0 = $trace.borrow().len();
+                let mut so = SearchOut::empty();
+                match m.as_str() {
                     "node" => {
-                        $out.node = $bb.search().map(|n| *n.key());
+                        so.node = $bb.search().map(|n| *n.key());
                     }
                     "path" => {
                         if let Some(p) = $bb.search_path() {
-                            fill_path!($out, p);
+                            fill_path!(so, p);
                         }
                     }
                     _ => {
                         if let Some(p) = $bb.search_cycle() {
-                            fill_path!($out, p);
+                            fill_path!(so, p);
                         }
                     }
                 }
+                so.trace = $trace.borrow()[t0..].to_vec();
+                $out.stages.push((m, cur_target, so));
             }};
         }
     };
 }
 
 macro_rules! run_order_modes {
-    ($spec:expr, $out:expr) => {
+    ($spec:expr, $out:expr, $trace:expr) => {
         macro_rules! run {
             ($bb:ident) => {{
-                if $spec.mode == "nodes" {
-                    $out.list_nodes = $bb.search_nodes().iter().map(|n| *n.key()).collect();
-                } else {
-                    $out.list_edges = $bb.search_edges().iter().map(|Edge(u, v, e)| (*u.key(), *v.key(), *e)).collect();
+                for stage in $spec.mode.split('+') {
+                    let t0 = $trace.borrow().len();
+                    let mut so = SearchOut::empty();
+                    if stage == "nodes" {
+                        so.list_nodes = $bb.search_nodes().iter().map(|n| *n.key()).collect();
+                    } else if stage == "edges" {
+                        so.list_edges = $bb.search_edges().iter().map(|Edge(u, v, e)| (*u.key(), *v.key(), *e)).collect();
+                    } else {
+                        continue;
+                    }
+                    so.trace = $trace.borrow()[t0..].to_vec();
+                    $out.stages.push((stage.to_string(), None, so));
                 }
             }};
         }
@@ -198,12 +270,12 @@ macro_rules! run_order_modes {
 macro_rules! kind_search {
     (di) => {
         pub fn do_search(st: &St, spec: &SearchSpec, hook: Option<&dyn Fn(usize, (usize, usize, u32))>) -> SearchOut {
-            let mut out = SearchOut { node: None, path: None, path_nodes: vec![], path_len: 0, first_node: None, last_node: None, first_edge: None, last_edge: None, views: String::new(), list_nodes: vec![], list_edges: vec![], trace: vec![] };
+            let mut out = SearchOut::empty();
             let trace: RefCell<Vec<(usize, usize, u32)>> = RefCell::new(vec![]);
             let root = st.node(spec.root).clone();
             let tgt = spec.target;
             {
-                run_search_modes!(spec, out);
+                run_search_modes!(spec, out, trace);
                 match spec.kind.as_str() {
                     "bfs" => {
                         let b = root.bfs();
@@ -228,7 +300,7 @@ macro_rules! kind_search {
                 }
             }
             {
-                run_order_modes!(spec, out);
+                run_order_modes!(spec, out, trace);
                 match spec.kind.as_str() {
                     "pre" => {
                         let b = root.preorder();
@@ -243,18 +315,17 @@ macro_rules! kind_search {
                     _ => {}
                 }
             }
-            out.trace = trace.into_inner();
-            out
+            finish_stages(out, trace.into_inner())
         }
     };
     (un) => {
         pub fn do_search(st: &St, spec: &SearchSpec, hook: Option<&dyn Fn(usize, (usize, usize, u32))>) -> SearchOut {
-            let mut out = SearchOut { node: None, path: None, path_nodes: vec![], path_len: 0, first_node: None, last_node: None, first_edge: None, last_edge: None, views: String::new(), list_nodes: vec![], list_edges: vec![], trace: vec![] };
+            let mut out = SearchOut::empty();
             let trace: RefCell<Vec<(usize, usize, u32)>> = RefCell::new(vec![]);
             let root = st.node(spec.root).clone();
             let tgt = spec.target;
             {
-                run_search_modes!(spec, out);
+                run_search_modes!(spec, out, trace);
                 match spec.kind.as_str() {
                     "bfs" => {
                         let b = root.bfs();
@@ -276,7 +347,7 @@ macro_rules! kind_search {
                 }
             }
             {
-                run_order_modes!(spec, out);
+                run_order_modes!(spec, out, trace);
                 match spec.kind.as_str() {
                     "pre" => {
                         let b = root.order().pre();
@@ -289,8 +360,7 @@ macro_rules! kind_search {
                     _ => {}
                 }
             }
-            out.trace = trace.into_inner();
-            out
+            finish_stages(out, trace.into_inner())
         }
     };
 }
@@ -600,8 +670,20 @@ macro_rules! ext_mod {
                         if !ctx.quiet && !ctx.oracles.is_empty() {
                             let ls = st.lists();
                             let vals: Vec<(usize, i64)> = st.nodes.iter().map(|n| (*n.key(), *n.value())).collect();
-                            for (name, msg) in os::check(DIRECTED, &ls, &vals, &spec, &out, &ctx.oracles) {
-                                ctx.fail(case, li, &name, msg);
+                            if spec.mode.contains('+') {
+                                // builder reuse: the statement is evaluated on every stage
+                                for (m, tg, so) in &out.stages {
+                                    let mut sp = spec.clone();
+                                    sp.mode = m.clone();
+                                    sp.target = *tg;
+                                    for (name, msg) in os::check(DIRECTED, &ls, &vals, &sp, so, &ctx.oracles) {
+                                        ctx.fail(case, li, &name, format!("(stage `{m}` of a reused builder) {msg}"));
+                                    }
+                                }
+                            } else {
+                                for (name, msg) in os::check(DIRECTED, &ls, &vals, &spec, &out, &ctx.oracles) {
+                                    ctx.fail(case, li, &name, msg);
+                                }
                             }
                         }
                         let mut shown = show_search(&spec, &out);
